@@ -40,7 +40,7 @@ func genC14(t *rapid.T) C14Case {
 		var round []C14RPC
 		for i := 0; i < n; i++ {
 			x := C14RPC{Kind: rapid.SampledFrom(allKinds).Draw(t, "kind"), Outcome: rapid.SampledFrom(c14Outcomes).Draw(t, "outcome"), Msgs: rapid.IntRange(0, 3).Draw(t, "msgs")}
-			if x.Kind == kit.KindUnary && (x.Outcome == "reset" || x.Outcome == "openfail") {
+			if x.Kind == kit.KindUnary && x.Outcome == "reset" {
 				x.Outcome = "herr"
 			}
 			if x.Outcome == "cancel-unread" && x.Kind != kit.KindServer && x.Kind != kit.KindBidi {
@@ -154,10 +154,10 @@ func execC14(t *testing.T, c C14Case) (v Verdict) {
 		cc := w.CC[0]
 		// "openfail": the transport write of an open envelope carrying the marker metadata fails
 		l.A.FailWriteIf(func(r *kit.Rpc) bool {
-			if r.GetBody() != nil || r.GetTrailer() != nil || r.GetReset_() != nil {
+			if r.GetTrailer() != nil || r.GetReset_() != nil {
 				return false
 			}
-			for _, kv := range r.GetHeader().GetHeaders() {
+			for _, kv := range r.GetHeader().GetHeaders() { // stream opens and unary requests carry the caller's metadata
 				if kv.GetKey() == "failopen" {
 					return true
 				}
@@ -203,7 +203,10 @@ func execC14(t *testing.T, c C14Case) (v Verdict) {
 						defer cancel()
 					}
 					if x.Kind == kit.KindUnary {
-						name := map[string]string{"ok": "u-ok", "herr": "u-herr", "cancel": "u-wait", "deadline": "u-wait"}[x.Outcome]
+						name := map[string]string{"ok": "u-ok", "herr": "u-herr", "cancel": "u-wait", "deadline": "u-wait", "openfail": "u-ok"}[x.Outcome]
+						if x.Outcome == "openfail" {
+							ctx = metadataOutgoing(ctx, "failopen", "1") // the transport write of this request fails
+						}
 						if x.Outcome == "cancel" {
 							go func() { time.Sleep(time.Millisecond); cancel() }()
 						}
